@@ -7,7 +7,7 @@ import msggen
 
 PROPFILES = ["props/C01.v"]
 RULE = ("well-formed frames: every message id x msgmode{GET,SET,POLL,SETPOLL} x parsebitfield x payload lengths "
-        "{0,1,2,definition-1,definition,definition+1,+7, 64,300} x fills, structure-aware conforming payloads, unknown "
+        "{0,1,2,definition-1,definition,definition+1,+7, 64,300} x fills, sentinel bytes (00 20 0a 0d ff) at either end of the payload in the definition's own mode, structure-aware conforming payloads, unknown "
         "class/ids (thorough: all 65536 x lengths 0..2); PARSE and PARSERT (eval(repr)) correspondence + search on the "
         "implementation: serialize()==input, msg_cls/msg_id/length/payload == frame fields, eval(repr(m)).serialize() "
         "== input. non-trivial = distinct accepted frames.")
@@ -28,9 +28,19 @@ def frames(ctx):
                 if len(key) == 3 and L:
                     pl = key[2:3] + pl[1:]
                 out.append((key, pl))
+        # content-sensitive handling (stripping, decoding, terminators): sentinel bytes at either end of the payload,
+        # parsed in the definition's own mode (a frame is otherwise parsed in a rotating mode)
+        for L in sorted(set([2, nom + 1] if ctx.quick() else [1, 2, 7, nom, nom + 1]) - {0}):
+            body = bytes(rng.randrange(1, 256) for _ in range(L))
+            for sent in ((0x00, 0x20) if ctx.quick() else (0x00, 0x20, 0x0a, 0x0d, 0xff)):
+                for pl in ((body[:-1] + bytes([sent]), bytes([sent]) + body[1:]) if ctx.quick() else
+                           (body[:-1] + bytes([sent]), bytes([sent]) + body[1:], bytes([sent]) * L)):
+                    if len(key) == 3 and L:
+                        pl = key[2:3] + pl[1:]
+                    out.append((key, pl, mode))
         for cnt in ((1,) if ctx.quick() else (0, 1, 3)):
             g = msggen.Gen(rng, d, mode, name, key, cnt, "random")
-            out.append((key, g.payload()))
+            out.append((key, g.payload(), mode))
     if ctx.quick():
         for _ in range(600):
             out.append((bytes([rng.randrange(256), rng.randrange(256)]), bytes(rng.randrange(256) for _ in range(rng.choice([0, 1, 2, 5, 40])))))
@@ -50,9 +60,10 @@ def run(ctx):
     fr = frames(ctx)
     cmds = []
     cases = []
-    for n, (key, pl) in enumerate(fr):
+    for n, item in enumerate(fr):
+        key, pl = item[0], item[1]
         f = gen.ubx_frame(key[0], key[1], pl)
-        mode = n % 4
+        mode = item[2] if len(item) > 2 and n % 5 else n % 4
         bf = (n // 4) % 2
         val = 1 if n % 7 else 0
         cases.append((f, mode, bf, val))
